@@ -197,6 +197,24 @@ static const char *xattr_details =
 "    system.posix_acl_access=0sSGVsbG8gdGhlcmUgOi0pCg==\n"
 "\n\n";
 
+static int parse_id_arg(const char *str, unsigned int *out)
+{
+	unsigned long long value;
+	char *end;
+
+	if (!isdigit((unsigned char)str[0]))
+		return -1;
+
+	errno = 0;
+	value = strtoull(str, &end, 0);
+
+	if (errno != 0 || end == str || *end != '\0' || value > 0x0FFFFFFFFULL)
+		return -1;
+
+	*out = value;
+	return 0;
+}
+
 void process_command_line(options_t *opt, int argc, char **argv)
 {
 	bool have_compressor;
@@ -220,11 +238,17 @@ void process_command_line(options_t *opt, int argc, char **argv)
 			opt->dirscan_flags &= ~DIR_SCAN_KEEP_GID;
 			break;
 		case 'u':
-			opt->force_uid_value = strtol(optarg, NULL, 0);
+			if (parse_id_arg(optarg, &opt->force_uid_value)) {
+				fprintf(stderr, "Invalid user ID: %s\n", optarg);
+				goto fail_arg;
+			}
 			opt->dirscan_flags &= ~DIR_SCAN_KEEP_UID;
 			break;
 		case 'g':
-			opt->force_gid_value = strtol(optarg, NULL, 0);
+			if (parse_id_arg(optarg, &opt->force_gid_value)) {
+				fprintf(stderr, "Invalid group ID: %s\n", optarg);
+				goto fail_arg;
+			}
 			opt->dirscan_flags &= ~DIR_SCAN_KEEP_GID;
 			break;
 		case 'T':
